@@ -3,6 +3,7 @@ package props
 import (
 	"fmt"
 	"runtime"
+	"strings"
 	"sync/atomic"
 
 	"github.com/RoaringBitmap/roaring/v2"
@@ -169,6 +170,16 @@ func creations() []creation {
 			return nil, op.Model(a.M, b.M), nil
 		}})
 	}
+	// the same bitmap as both operands of a static operation: the result must still be a bitmap of its own
+	for _, op := range binOps {
+		op := op
+		if op.Name == "Xor" || op.Name == "AndNot" {
+			continue // empty results have nothing to share
+		}
+		cs = append(cs, creation{op.Name + "(a,a)", func(a, b *reg) (*roaring.Bitmap, *model.Set32, *ev.Fail) {
+			return op.Static(a.B, a.B), op.Model(a.M, a.M), nil
+		}})
+	}
 	flip := func(name string, rng func(m *model.Set32) (uint64, uint64)) creation {
 		return creation{name, func(a, b *reg) (*roaring.Bitmap, *model.Set32, *ev.Fail) {
 			s, e := rng(a.M)
@@ -201,6 +212,8 @@ func creations() []creation {
 		variadic("FastOr(a,b,a)", roaring.FastOr, foldOr, dup),
 		variadic("FastAnd(a,b)", roaring.FastAnd, foldAnd, ab),
 		variadic("FastAnd(a)", roaring.FastAnd, foldAnd, one),
+		variadic("FastAnd(a,a)", roaring.FastAnd, foldAnd, func(a, b *reg) []*reg { return []*reg{a, a} }),
+		variadic("FastOr(a,a)", roaring.FastOr, foldOr, func(a, b *reg) []*reg { return []*reg{a, a} }),
 		variadic("HeapOr(a,b)", roaring.HeapOr, foldOr, ab),
 		variadic("HeapOr(a)", roaring.HeapOr, foldOr, one),
 		variadic("HeapXor(a,b)", roaring.HeapXor, foldXor, ab),
@@ -397,6 +410,9 @@ func runC07(c *Ctx) {
 	nTargets := 3
 	// one case: inputs (a,b) x creation x cow config x (target register, mutation)
 	caseRun := func(ai, bi, ci, wi, ti, mi int, second int) (string, *ev.Fail) {
+		if second < 0 && bi != 0 && strings.HasSuffix(crs[ci].Name, "(a,a)") {
+			return "self-creation: b plays no part", nil
+		}
 		ab, bb := pool[ai].Build(), pool[bi].Build()
 		defer runtime.KeepAlive(ab)
 		defer runtime.KeepAlive(bb)
@@ -491,7 +507,7 @@ func runC07(c *Ctx) {
 		}
 		return cr.Name, nil
 	}
-	p1 := &explore.Product{Name: "inputs^2 x creation x cow switch x (register, mutation)", Deadline: c.Budget(100, 1500), Execs: &execs,
+	p1 := &explore.Product{Name: "inputs^2 x creation x cow switch x (register, mutation)", Deadline: c.Budget(115, 1500), Execs: &execs,
 		Dims: []int{len(pool), len(pool), len(crs), len(cowConfigs), nTargets, len(muts)},
 		Run: func(idx []int) (string, *ev.Fail) {
 			return caseRun(idx[0], idx[1], idx[2], idx[3], idx[4], idx[5], -1)
@@ -533,7 +549,12 @@ func runC07(c *Ctx) {
 	if !q {
 		pb.MaxDepth = 4
 	}
-	pb.Deadline = c.Budget(119, 1795)
-	scs = append(scs, pb)
+	pb.Deadline = c.Budget(30, 1795)
+	if q {
+		// quick: the cheap closure first (its deadline is an absolute time), then the two products
+		scs = append([]explore.Scenario{pb}, scs...)
+	} else {
+		scs = append(scs, pb)
+	}
 	runScenarios(c, scs...)
 }
